@@ -44,4 +44,9 @@ MUTANTS = [
 
  {"id": "probe-literal-tested-on-whole-input", "kind": "break", "edits": [(D, 'if starts_with_ignore_ascii_case(slice, "alpha") {', 'if starts_with_ignore_ascii_case(s, "alpha") {')], "expect": ["D1-"]},
 
+
+ # nb row as leading_digits(&slice[2..]) with idx += 2 + nbstr.len()
+ {"id": "nb-nested-tail-benign", "kind": "benign", "edits": [{"patch": "/verif/benign/h7-dewey-1/patch.diff"}]},
+ {"id": "nb-nested-tail-digits-from-cursor", "kind": "break", "edits": [{"patch": "/verif/benign/h7-dewey-1/patch.diff"}, ("src/dewey.rs", "let nbstr = leading_digits(&slice[2..]);", "let nbstr = leading_digits(&slice[1..]);")], "expect": ["D1-TOK-TABLE"]},
+ {"id": "nb-nested-tail-advance-without-marker", "kind": "break", "edits": [{"patch": "/verif/benign/h7-dewey-1/patch.diff"}, ("src/dewey.rs", "idx += 2 + nbstr.len();", "idx += 1 + nbstr.len();")], "expect": ["D1-"]},
 ]
